@@ -6,14 +6,16 @@ PROPS = {"C03"}
 ASSUMPTIONS = c01.ASSUMPTIONS + [
     "order oracle: the executed row sequence must be a concatenation of the model's tie groups (rows with equal sort keys may come in any order)",
     "a take whose boundary splits a tie group, or that is applied with no order in effect and does not cover the relation, is unspecified and not judged",
-    "order after right/full join and after append is treated as not established (compared as a bag)",
+    "after a right/full join whose left input is ordered, the rows that come from left rows must keep their relative order; the rows padded from the right side may appear anywhere. Order after append is treated as not established (compared as a bag)",
     "static supplement: when the model's result is ordered with >= 2 distinct keys, the outermost SELECT must carry an ORDER BY (an engine returning sorted rows by accident does not enforce the order)",
 ]
 
 
 def run(tier, seed):
     r = c01.explore("C03", PROPS, [("sort", 1.0)], tier, seed, 900, 40000, ASSUMPTIONS,
-                    "For C03 a case also counts towards non-trivial only through executions whose model result is ordered.")
+                    "For C03 the deciding executions are those whose model result is ordered (ordered_results) or keeps the left order through a right/full join (partially_ordered_results).")
+    if not r.inconclusive and r.coverage.get("ordered_results", 0) < 50:
+        r.inconclusive = "too few ordered results judged (%d)" % r.coverage.get("ordered_results", 0)
     return r
 
 
